@@ -143,22 +143,10 @@ class OpAddNe(OpAdd):
     ) -> Union[MutableSequence[object], MutableMapping[str, object]]:
         """Apply this patch operation to _data_."""
         parent, obj = self.path.resolve_parent(data)
-        if parent is None:
-            # Replace the root object.
-            # The following op, if any, will raise a JSONPatchError if needed.
-            return self.value  # type: ignore
-
-        target = self.path.parts[-1]
-        if isinstance(parent, MutableSequence):
-            if obj is UNDEFINED:
-                parent.append(self.value)
-            else:
-                parent.insert(int(target), self.value)
-        elif isinstance(parent, MutableMapping):
-            key = _member_name(parent, target)
-            if key not in parent:
-                parent[key] = self.value
-        return data
+        if isinstance(parent, MutableMapping) and obj is not UNDEFINED:
+            # Leave the existing member untouched.
+            return data
+        return super().apply(data)
 
 
 class OpAddAp(OpAdd):
